@@ -700,7 +700,12 @@ class Exec:
         if isinstance(val, dict):
             if 'ref' in val:
                 inner = self.pdb.ty(t['to']) if k in ('ref', 'ptr') else t
+                if inner['k'] == 'slice' and isinstance(val['ref'], list):
+                    et = self.pdb.ty(inner['elem'])
+                    return mk('ref', ('val', agg(('array',), [self._conv(v, et) for v in val['ref']])), None)
                 return mk('ref', ('val', self._conv(val['ref'], inner)), None)
+            if 'str' in val:
+                return mk('c', val['str'], 'str')
             if 'fbits' in val:
                 import struct
                 if val['size'] == 4:
@@ -1464,6 +1469,8 @@ class Exec:
         if not f['targs']:
             raise Uncertified("trait call without type arguments: %s" % f['def'])
         t0 = pdb.ty(f['targs'][0])
+        if tr not in pdb.traits:
+            return None, None
         if t0['k'] == 'param':
             sty = ctx['self_ty']
             if sty is None:
